@@ -224,7 +224,7 @@ def case_from_json(r):
     return c, v
 
 
-def minimise(runner, c, v, fails, budget=40):
+def minimise(runner, c, v, fails, budget=60):
     """greedy shrinking of a failing (case, variant): shorter AAD, shorter data (whole 16-byte
     blocks first so that the residue is kept), fewer / merged segments.  `fails(case)` reruns
     model and implementation."""
@@ -279,6 +279,16 @@ def minimise(runner, c, v, fails, budget=40):
                     cands.append(dict(cur, segs=segs[:j] + [segs[j] + segs[j + 1]] + segs[j + 2:]))
             if segs and segs[-1] >= 16:
                 cands.append(with_data(cur, n - 16 * (segs[-1] // 32 or 1)))
+            # shorten one piece by whole blocks (its residue, and so every carried residue, is kept)
+            for j in range(len(segs)):
+                for cut in (16 * (segs[j] // 16), 16 * (segs[j] // 32), 16):
+                    if 0 < cut <= segs[j]:
+                        off = sum(segs[:j])
+                        cands.append(dict(cur, data=cur["data"][:off] + cur["data"][off + cut:],
+                                          segs=segs[:j] + [segs[j] - cut] + segs[j + 1:]))
+            for j in range(len(segs)):
+                if segs[j] == 0 and len(segs) > 1:
+                    cands.append(dict(cur, segs=segs[:j] + segs[j + 1:]))
             for cc in cands:
                 if try_(cc):
                     changed = True
@@ -462,7 +472,45 @@ _variants_random = variants
 def variants(rng, c, k):   # noqa: F811  (wrapper: a fixed variant for replay / minimisation)
     if isinstance(rng, _FixedVariant):
         return [rng.v]
-    return _variants_random(rng, c, k)
+    return list(c.get("fixed", [])) + _variants_random(rng, c, k)
+
+
+def corpus(pid, streaming, limit=60):
+    """the minimised failing inputs recorded so far (replays/<pid>-*.json, newest first): run
+    again on every check, on the recorded implementation variant and on all the usual ones"""
+    d = os.path.join(vlib.VERIF, "replays")
+    out, seen = [], set()
+    try:
+        files = sorted((f for f in os.listdir(d) if f.startswith(pid + "-") and f.endswith(".json")),
+                       key=lambda f: os.path.getmtime(os.path.join(d, f)), reverse=True)
+    except FileNotFoundError:
+        files = []
+    for f in files:
+        try:
+            r = json.load(open(os.path.join(d, f)))["replay"]
+            r = r.get("case", r)
+            if not all(k in r for k in ("key", "iv", "data", "enc", "tag_len")) or not isinstance(r.get("aad"), str):
+                continue
+            bytes.fromhex(r["aad"])
+            c, v = case_from_json(r)
+        except (ValueError, KeyError, TypeError):
+            continue
+        if streaming and c["segs"] is None:
+            c["segs"] = [len(c["data"])]
+        if not streaming:
+            c["segs"] = None
+        if v[1] and c["segs"] is not None and not all(x % 64 == 0 for x in c["segs"][:-1]):
+            continue
+        key = (c["key"], c["iv"], c["aad"], c["data"], c["enc"], c["tag"], tuple(c["segs"] or ()), v)
+        if key in seen:
+            continue
+        seen.add(key)
+        c["fixed"] = [v]
+        c["aim"] = "corpus of earlier minimised failures"
+        out.append(c)
+        if len(out) >= limit:
+            break
+    return out
 
 
 def check_bindings(rep, oc):
